@@ -1,0 +1,46 @@
+"""
+Tracing hooks for external trace validation.
+
+Disabled unless the environment variable EXACTLY_VERIF_TRACE names a file:
+then one JSON object per event is appended to that file.
+Nothing is evaluated, and nothing is written, when the variable is unset.
+"""
+import json
+import os
+from typing import Callable, Optional
+
+_GUARD = 'EXACTLY_VERIF_TRACE'
+_TRACKED_ENV_PREFIX = 'VERIF_'
+_seq = 0
+
+
+def emit(event: str, fields: Optional[Callable[[], dict]] = None):
+    path = os.environ.get(_GUARD)
+    if not path:
+        return
+    global _seq
+    _seq += 1
+    record = {'pid': os.getpid(), 'seq': _seq, 'ev': event}
+    try:
+        if fields is not None:
+            record.update(fields())
+        data = json.dumps(record, default=str)
+    except Exception as ex:
+        data = json.dumps({'pid': os.getpid(), 'seq': _seq, 'ev': event, 'hook_error': repr(ex)})
+    try:
+        fd = os.open(path, os.O_WRONLY | os.O_APPEND | os.O_CREAT, 0o666)
+        try:
+            os.write(fd, (data + '\n').encode())
+        finally:
+            os.close(fd)
+    except OSError:
+        pass
+
+
+def num_instructions(section_contents) -> int:
+    return sum(1 for e in section_contents.elements if e.element_type.name == 'INSTRUCTION')
+
+
+def tracked_env(environ) -> dict:
+    env = os.environ if environ is None else environ
+    return {k: v for k, v in env.items() if k.startswith(_TRACKED_ENV_PREFIX)}
